@@ -7,6 +7,7 @@ import (
 	"net/url"
 	"os"
 	"path"
+	"reflect"
 	"strconv"
 
 	"github.com/go-openapi/analysis/internal/debug"
@@ -323,6 +324,20 @@ func UpdateRefWithSchema(sp *spec.Swagger, key string, sch *spec.Schema) error {
 	return nil
 }
 
+// isNil tells whether a value is nil, or an interface holding a nil pointer, map or slice
+func isNil(value interface{}) bool {
+	if value == nil {
+		return true
+	}
+
+	switch v := reflect.ValueOf(value); v.Kind() {
+	case reflect.Ptr, reflect.Map, reflect.Slice, reflect.Interface:
+		return v.IsNil()
+	default:
+		return false
+	}
+}
+
 // DeepestRefResult holds the results from DeepestRef analysis
 type DeepestRefResult struct {
 	Ref      spec.Ref
@@ -362,6 +377,11 @@ DOWNREF:
 		value, _, err := currentRef.GetPointer().Get(sp)
 		if err != nil {
 			return nil, err
+		}
+
+		if isNil(value) {
+			// the pointer designates an optional part of the document which is not there (e.g. ".../additionalItems")
+			return nil, ErrNoSchema(currentRef.String())
 		}
 
 		switch refable := value.(type) {
